@@ -108,7 +108,7 @@ def run_property(prop, scenarios, opts, meta):
     t0 = time.time()
     tier = opts.get("tier", "quick")
     seed = int(os.environ.get("VERIF_SEED", "0"))
-    nproc = int(os.environ.get("VERIF_JOBS", str(min(16, os.cpu_count() or 4))))
+    nproc = int(os.environ.get("VERIF_JOBS", str(min(opts.get("jobs", 16), os.cpu_count() or 4))))
     deadline = t0 + opts.get("budget_s", 150 if tier == "quick" else 1500)
     jobs = [(prop, h, d, opts) for (h, d) in scenarios]
     results = []
